@@ -55,7 +55,7 @@ fn expected_suites(ids: &[u16]) -> Result<Vec<Option<&'static vmodel::ciphers::R
     Ok(ids.iter().map(|id| map.get(id).copied()).collect())
 }
 
-fn got_suites(v: &[Option<&'static TlsCipherSuite>], ids: &[u16], what: &str) -> R {
+fn got_suites(v: &[Option<&TlsCipherSuite>], ids: &[u16], what: &str) -> R {
     let want = expected_suites(ids)?;
     ensure!(v.len() == ids.len(), format!("C15:{}:length", what), "{} returned {} entries for {} advertised ids", what, v.len(), ids.len());
     for (i, (g, w)) in v.iter().zip(want.iter()).enumerate() {
